@@ -1,20 +1,29 @@
-(** C30 — facts and effects change only inside finish blocks.
+(** C30 - facts and effects change only inside finish blocks.
 
-    What is proved here is the syntactic form ([_partial]): for every policy [Compile.compile]
-    accepts (acceptance is the statement-context table of Typing.v, the transcription of the
-    checks of lower.rs), the compiled code of every function, command (policy block, recall
-    blocks, seal, open) and action contains a write instruction (Create, Update, Delete, Emit)
-    only inside a segment [Meta (Finish true); Block; c; End; Exit Normal|Check] in which every
-    instruction of [c] is straight-line finish code ([fin_instr]: no branch, jump, exit, recall
-    or return); the body of every finish function is such a [c].
+    Two machine-checked statements, both for every policy [Compile.compile] accepts
+    (acceptance is the statement-context table of Typing.v, the transcription of the checks
+    of lower.rs):
 
-    Not proved ([writes_only_in_finish_full_stmt] in proofs/FinishOnly.v stays a definition):
-    the statement about runs of the VM - a run that ends with Exit Check without a recall, or
-    with Exit Panic, leaves the write log unchanged.  That step needs an invariant over
-    Vm.step (pc outside the finish segments until a [Meta (Finish true)] is executed); it is
-    covered by leg L3 (real runs with a logging MachineIO). *)
+    [lang_writes_only_in_finish] - reference semantics (model/Lang.v, the semantics leg L3 compares
+    the real compiler+VM with): evaluating the policy block of a command, at any call depth and
+    against any I/O oracle whose reads and foreign calls leave the write log [wl] alone, if the
+    evaluation stops with [ER_Panic], or with [ER_Check] outside recall context, the write log
+    (fact inserts, deletes, effects) is what it was at the start.
+
+    [writes_only_in_finish_partial] - compiled code: in the code of every function, command
+    (policy block, recall blocks, seal, open) and action a write instruction (Create, Update,
+    Delete, Emit) occurs only inside a segment [Meta (Finish true); Block; c; End; Exit Normal|Check]
+    in which every instruction of [c] is straight-line finish code ([fin_instr]: no branch, jump,
+    exit, recall or return); the body of every finish function is such a [c].
+
+    Not proved ([writes_only_in_finish_full_stmt] in proofs/FinishOnly.v stays a definition): the
+    same statement about runs of Vm.run on the compiled code.  The simulation of C22 does not
+    cover the fact statements, so the link between the two statements above is the correspondence
+    (L1: code; L3: runs with a logging MachineIO), not a theorem.  Also not proved: that effects
+    emitted in recall context carry [recalled = true] (by inspection of SEmit in Lang.v and Emit
+    in Vm.v; checked on every L3 run). *)
 From Aranya Require Import base.Tactics model.VmBase gen.GenVm model.Vm model.Lang model.Typing
-  model.Compile model.CompileDirect proofs.FinishOnly.
+  model.Compile model.CompileDirect proofs.FinishOnly proofs.FinishLang.
 Local Open Scope N_scope.
 
 Theorem writes_only_in_finish_partial : forall p dbg la, writes_only_in_finish_partial_stmt p dbg la.
@@ -31,7 +40,20 @@ Check writes_only_in_finish_partial :
                        /\ forallb fin_instr code = true).
 Print Assumptions writes_only_in_finish_partial.
 
-(** the source-level table on which it rests *)
+Theorem lang_writes_only_in_finish : lang_writes_only_in_finish_stmt.
+Proof. exact lang_writes_only_in_finish_proof. Qed.
+Check lang_writes_only_in_finish :
+  forall (St Wl : Type) (lio : lang_io St) (wl : St -> Wl),
+    (forall s n k, wl (fst (lio_query lio s n k)) = wl s) ->
+    (forall s a b vs c, wl (fst (lio_ffi lio s a b vs c)) = wl s) ->
+    forall (p : policy) (dbg : bool) x, Compile.compile p dbg = ROk x ->
+    forall fuel name this envelope (w : world St) r w',
+      run_policy lio p dbg fuel name this envelope w = OExit r w' ->
+      (r = ER_Panic \/ (r = ER_Check /\ is_recall_ctx (w_ctx w') = false)) ->
+      wl (w_io w') = wl (w_io w).
+Print Assumptions lang_writes_only_in_finish.
+
+(** the source-level table on which both rest *)
 Check accepted_outside :
   forall p is_debug sigs g cx te ss te',
     Typing.check_stmts p is_debug sigs g cx te ss = ROk te' -> is_finish cx = false -> nw_stmts ss = true.
